@@ -14,6 +14,7 @@
 //   ra  <view> <i> <nlo> <nhi> <m>    -> 1-D iterator laws around it = begin()+i
 //   st  <view> <axis> <c> <i> <nlo> <nhi> <m>   -> x (axis 0, row c) / y (axis 1, column c) iterator laws
 //   mv  <view> <x0> <y0> <moves...>   -> locator after a move program vs. xy_at of the summed offset
+//   pli <view> <y> <i> <d>            -> raw planar x-iterator it = row_begin(y)+i with ALL its planes: planes of it, of it[d], of it+d; (it+d)-it; < > <= >= == !=
 //   bit <B> <off> <n>                 -> bit iterator: memunit_advance by n bits, distance, advance back (huge range)
 //   bitit <B> <off> <k>               -> bit iterator: it + k pixels, (it+k) - it, ordering, (it+k) - k
 #include <boost/gil.hpp>
@@ -131,6 +132,8 @@ template <class V, class F> void walk(V const& v, std::vector<Xf> const& xs, siz
 }
 
 static void put(std::string& s, long long v) { s += std::to_string(v); s += ' '; }
+template <class It> struct is_raw_planar : std::false_type {};
+template <class C, class CS> struct is_raw_planar<gil::planar_pixel_iterator<C, CS>> : std::true_type {};
 
 // ---------------------------------------------------------------- op handlers (generic over the view type)
 template <bool Virt> struct Ops {
@@ -213,7 +216,24 @@ template <bool Virt> struct Ops {
         put(out, X); put(out, Y);
     }
 
+    template <class V> void pli(V const& v) {
+        using xit = typename V::x_iterator;
+        if constexpr (is_raw_planar<xit>::value) {
+            long y = arg(0), i = arg(1), d = arg(2);
+            xit it0 = v.row_begin(y) + i;
+            auto planes = [&](xit const& it) {
+                put(out, (const unsigned char*)gil::at_c<0>(it) - ORG); put(out, (const unsigned char*)gil::at_c<1>(it) - ORG); put(out, (const unsigned char*)gil::at_c<2>(it) - ORG); };
+            planes(it0);
+            { typename xit::reference r = it0[d];
+              put(out, (const unsigned char*)&gil::at_c<0>(r) - ORG); put(out, (const unsigned char*)&gil::at_c<1>(r) - ORG); put(out, (const unsigned char*)&gil::at_c<2>(r) - ORG); }
+            xit J = it0 + d; planes(J);
+            put(out, J - it0);
+            put(out, it0 < J ? 1 : 0); put(out, it0 > J ? 1 : 0); put(out, it0 <= J ? 1 : 0); put(out, it0 >= J ? 1 : 0); put(out, it0 == J ? 1 : 0); put(out, it0 != J ? 1 : 0);
+        } else out = "bad-op";
+    }
+
     template <class V> void operator()(V const& v) {
+        if (w[0] == "pli") { if constexpr (!Virt) pli(v); else out = "bad-op"; return; }
         if (w[0] == "nav") nav(v); else if (w[0] == "ra") ra(v); else if (w[0] == "st") st(v); else if (w[0] == "mv") mv(v);
         else out = "bad-op";
     }
@@ -261,7 +281,7 @@ int main() {
     HUGE_ORG = huge == MAP_FAILED ? nullptr : (unsigned char*)huge + (1ul << 29);
     return hv::run([](std::string const& line) -> std::string {
         auto w = hv::words(line);
-        if (w.size() >= 7 && (w[0] == "nav" || w[0] == "ra" || w[0] == "st" || w[0] == "mv")) {
+        if (w.size() >= 7 && (w[0] == "nav" || w[0] == "ra" || w[0] == "st" || w[0] == "mv" || w[0] == "pli")) {
             std::string const& k = w[1];
 #if KGROUP == 0 || KGROUP == 1
             if (k == "g8") return view_op<K_inter<gil::gray8_pixel_t>>(w);
